@@ -257,9 +257,9 @@ def life_stage(w, prop, invariants, tier, seed, ev):
     replayed by the harness on one set of real objects per history, judged by ContractTrace."""
     import re
     q = tier == "quick"
-    consts = {"MaxLen": "2" if q else "3", "Size": "1" if q else "2"}
+    consts = {"MaxLen": "2" if q else "3", "Size": "1" if q else "2", "Small": "FALSE" if q else "TRUE"}
     # the abstract life cycle (memo / execution counts) without VIEW
-    write_cfg(w, "L_abs.cfg", "Spec", ["OnceAtMostOnce"], constants={"MaxLen": "2", "Size": "2"}, post=None, alias=None, props=["RedefinePure"])
+    write_cfg(w, "L_abs.cfg", "Spec", ["OnceAtMostOnce"], constants={"MaxLen": "2", "Size": "2", "Small": "FALSE"}, post=None, alias=None, props=["RedefinePure"])
     res = w.tlc("Lifecycle.tla", "L_abs.cfg", workers=vlib.NCPU, timeout=900)
     ev.add_tlc("lifecycle-abstract", res, "model_checking")
     if not res["ok"]:
@@ -268,8 +268,13 @@ def life_stage(w, prop, invariants, tier, seed, ev):
     res = w.tlc("Lifecycle.tla", "L_enum.cfg", workers=vlib.NCPU, timeout=1800)
     ev.add_tlc("lifecycle-enumeration", res, "model_checking")
     outs = [res["out"]]
-    if q:  # plus a sample of longer histories
-        write_cfg(w, "L_sim.cfg", "Spec", ["EmitHist"], constants={"MaxLen": "4", "Size": "2"}, post=None, alias=None)
+    if not q:  # thorough: also every history of length 2 over the full step alphabet
+        write_cfg(w, "L_enum2.cfg", "Spec", ["EmitHist"], constants={"MaxLen": "2", "Size": "2", "Small": "FALSE"}, post=None, alias=None, extra="VIEW HView")
+        res2 = w.tlc("Lifecycle.tla", "L_enum2.cfg", workers=vlib.NCPU, timeout=1800)
+        ev.add_tlc("lifecycle-enumeration-len2", res2, "model_checking")
+        outs.append(res2["out"])
+    if True:  # plus a sample of longer histories
+        write_cfg(w, "L_sim.cfg", "Spec", ["EmitHist"], constants={"MaxLen": "4", "Size": "2", "Small": "FALSE"}, post=None, alias=None)
         sim = w.tlc("Lifecycle.tla", "L_sim.cfg", workers=1, timeout=600, simulate="num=12", extra=["-depth", "5", "-seed", str(seed)])
         ev.add_tlc("lifecycle-simulation", sim, "simulation")
         outs.append(sim["out"])
